@@ -174,7 +174,53 @@ class G:
                         tracked.add(src["l"])
                         changed = True
         self._feas = (tracked, sw_local) if sw_local else False
+        self._tag_live = {} if sw_local else None
         return self._feas
+
+    def _tag_live_of(self, l):
+        """blocks at whose entry the variant tag of local l can still matter: a read that can use it (a switch / discriminant
+        read, a move / copy / wrap of it, `?` on it, its drop) is still ahead.  Elsewhere the tag is dropped, which keeps
+        the number of distinct environments per block small."""
+        lv = self._tag_live.get(l)
+        if lv is not None:
+            return lv
+        ubs = set()
+        for bb, blk in enumerate(self.b.blocks):
+            for s_ in blk["stmts"]:
+                if s_["k"] != "assign":
+                    continue
+                rv = s_["rv"]
+                ops = [rv["op"]] if rv["k"] in ("use", "cast") else rv["ops"] if rv["k"] == "agg" else []
+                for o in ops:
+                    src = o.get("move") or o.get("copy")
+                    if src is not None and src["l"] == l:
+                        ubs.add(bb)
+                if rv["k"] in ("discr", "ref", "rawptr") and rv["place"]["l"] == l:
+                    ubs.add(bb)
+            t = blk["term"]
+            if t["k"] == "switch":
+                pl = t["discr"].get("copy") or t["discr"].get("move")
+                if pl is not None and pl["l"] == l:
+                    ubs.add(bb)
+            elif t["k"] == "call":
+                for a_ in t["args"]:
+                    src = a_.get("move") or a_.get("copy")
+                    if src is not None and src["l"] == l:
+                        ubs.add(bb)
+            elif t["k"] == "drop" and t["place"]["l"] == l:
+                ubs.add(bb)
+            elif t["k"] == "return" and l == 0:
+                ubs.add(bb)
+        seen = set(ubs)
+        st = list(ubs)
+        while st:
+            x = st.pop()
+            for (p_, _k, _lab) in self.pred[x]:
+                if p_ >= 0 and p_ not in seen:
+                    seen.add(p_)
+                    st.append(p_)
+        self._tag_live[l] = seen
+        return seen
 
     @staticmethod
     def _tag_of_place(e, pl):
@@ -229,6 +275,8 @@ class G:
                         e.pop(l, None)
             elif s_["k"] == "setdiscr":
                 e.pop(s_["lhs"]["l"], None)
+            elif s_["k"] == "dead":
+                e.pop(s_.get("l"), None)
         t = blk["term"]
         k = t["k"]
         only = None
@@ -289,6 +337,8 @@ class G:
             elif k == "drop":
                 e2 = dict(e)
                 e2.pop(t["place"]["l"], None)
+            if e2 and tgt >= 0 and getattr(self, "_tag_live", None) is not None:
+                e2 = {l_: tg_ for l_, tg_ in e2.items() if tgt in self._tag_live_of(l_)}
             out.append((tgt, ek, frozenset(e2.items())))
         return out
 
@@ -1112,6 +1162,8 @@ class Tracer:
     def project1(self, node, e, depth=0):
         if node[0] == "phi":
             return phi([self.project1(x, e, depth) for x in node[1]])
+        if node == NEVER:
+            return node
         if e == "*":
             if node[0] == "ref":
                 return node[1]
@@ -1130,6 +1182,10 @@ class Tracer:
             return ("field", node, e.get("n", e["f"]), e.get("adt"))
         if isinstance(e, dict) and "downcast" in e:
             if node[0] == "agg":
+                b = self._body(node[1], node[2])
+                rv = b.blocks[node[3]]["stmts"][node[4]]["rv"] if b is not None else {}
+                if rv.get("variant") is not None and e.get("v") is not None and rv.get("variant") != e.get("v") and rv.get("ak") == "adt":
+                    return NEVER        # `(X as V)` of a value built as another variant: the path is infeasible
                 return node
             return ("downcast", node, e.get("v", e["downcast"]))
         return ("proj", node, str(e))
@@ -1408,9 +1464,15 @@ def phi(nodes):
                     flat.append(y)
         elif x not in flat:
             flat.append(x)
+    if len(flat) > 1:
+        # an alternative that projects variant V out of an aggregate built as another variant cannot be taken
+        flat = [x for x in flat if x != NEVER] or [NEVER]
     if len(flat) == 1:
         return flat[0]
     return ("phi", tuple(flat))
+
+
+NEVER = ("never",)
 
 
 def leaves(node):
